@@ -53,6 +53,7 @@ class Report:
         self.functions: set = set()
         self.explanation = ""
         self.selftest: dict | None = None
+        self.deferred: list[str] = []
         self.t0 = time.time()
 
     # ---- recording
@@ -79,8 +80,18 @@ class Report:
         """Instance-count floor confirmed by hand: fewer instances than this is ANALYSIS-BROKEN."""
         self.floors[rule] = minimum
 
+    def require(self, cond, message):
+        """Deferred structural requirement (instance counts and the like): ANALYSIS-BROKEN at the end of the run unless a genuine
+        violation was found, which takes precedence."""
+        if not cond:
+            self.deferred.append(message)
+
     def check_floors(self):
         from . import AnalysisBroken
+        if self.failed():
+            return          # a genuine violation takes precedence over instance-count floors
+        if self.deferred:
+            raise AnalysisBroken("; ".join(self.deferred))
         for rule, minimum in self.floors.items():
             have = sum(1 for o in self.obligations if o.rule == rule or o.rule.startswith(rule + "/"))
             if have < minimum:
